@@ -188,7 +188,8 @@ def run_schedule(case, choices, drops_per_op):
                 options += [(j, "answer_now_deliver_later") for j, p in enumerate(sched.pending) if "pre" not in p]
             if case.get("reboots", 0) > info.get("reboots_n", 0):
                 options += [(-1, "reboot")]
-            if case.get("cancels", 0) > info.get("cancelled_n", 0) and len({p["op"] for p in sched.pending}) >= 2:
+            if case.get("cancels", 0) > info.get("cancelled_n", 0) and sum(1 for t in tasks if not t.done()) >= 2:
+                # (also while several operations wait for ONE datagram, e.g. a discovery exchange they share)
                 # the caller of one operation gives up (its task is cancelled) while others are in flight
                 options += [(j, "cancel") for j in range(len(sched.pending))]
             c = choices[step] if step < len(choices) else 0
